@@ -410,8 +410,11 @@ int main(int argc, char** argv) {
         long base = 0;
         for (const auto& st : states) {
             const long size = (long)st.bytes.size();
-            for (long c = std::max(0L, lo - base); c <= size && base + c < hi; ++c) {
-                vh::write_file(fn, st.bytes.substr(0, (size_t)c));
+            // this case's offsets of this state, longest first: the file is written once and then shortened byte by byte
+            const long cFirst = std::max(0L, lo - base), cLast = std::min(size, hi - 1 - base);
+            if (cFirst <= cLast) vh::write_file(fn, st.bytes.substr(0, (size_t)cLast));
+            for (long c = cLast; c >= cFirst; --c) {
+                if (c != cLast && ::truncate(fn.c_str(), (off_t)c) != 0) { fprintf(stderr, "truncate failed\n"); exit(3); }
                 rep.count("prefixes");
                 // does the prefix consist of complete steps only?  Then it is a legitimate file and must read completely.
                 bool complete = c == size;
@@ -456,7 +459,15 @@ int main(int argc, char** argv) {
                             bool ok = l.size() <= want.size() && !l.empty();
                             for (size_t k = 0; ok && k < l.size(); ++k) ok = std::get<0>(l[k]) == want[k].name && std::get<1>(l[k]) == libType(want[k].type) && std::get<2>(l[k]) == want[k].count();
                             if (complete && l.size() != want.size()) ok = false;
-                            if (!ok) viol("listOfRstArrays-phantom", "listOfRstArrays(" + std::to_string(steps[i]) + ") returns " + std::to_string(l.size()) + " entries that are not the leading arrays of the step as written");
+                            if (!ok) {
+                                // input class of the known defect 6.8: the requested step is a SEQNUM array that is the last array of the file
+                                // (the loop in listOfRstArrays then reads array_name[size]: a sanitizer abort, a SIGSEGV or a garbage entry)
+                                size_t seqIdx = 0; while (seqIdx < st.index.size() && st.index[seqIdx].header_off != st.surv[i].start) ++seqIdx;
+                                const bool pastEnd = i + 1 == steps.size() && list.size() == seqIdx + 1;
+                                std::string names; for (const auto& e : l) names += " '" + std::get<0>(e).substr(0, 16) + "'";
+                                viol(pastEnd ? "listOfRstArrays-past-end" : "listOfRstArrays-phantom", "listOfRstArrays(" + std::to_string(steps[i]) + ") returns " + std::to_string(l.size()) +
+                                     " entries that are not the leading arrays of the step as written:" + vh::jstr(names));
+                            }
                         } catch (const std::exception& e) {
                             rep.count("listOfRstArrays_refused");
                             if (complete) viol("complete-prefix-unreadable", std::string("listOfRstArrays threw on complete steps: ") + std::string(e.what()).substr(0, 200));
@@ -468,6 +479,13 @@ int main(int argc, char** argv) {
                 for (size_t i = 0; i < steps.size(); ++i) {
                     const StepContent& sc = contents[st.surv[i].pos];
                     const bool stepComplete = complete || (i + 1 < st.surv.size() && (long)st.surv[i + 1].start <= c);
+                    // two reader paths: on odd offsets the whole step is loaded first (loadData(vector)), then the named
+                    // reads find the arrays that were loaded before the first error and load the others one by one
+                    if (c & 1) {
+                        rep.count("loadReportStepNumber_calls");
+                        try { r.loadReportStepNumber(steps[i]); }
+                        catch (const std::exception& e) { rep.count("loadReportStepNumber_refused"); if (stepComplete) viol("complete-prefix-unreadable", "complete step " + std::to_string(steps[i]) + " cannot be loaded: " + std::string(e.what()).substr(0, 200)); }
+                    }
                     try {
                         rep.count("reads");
                         const auto& v = r.getRestartData<int>("SEQNUM", steps[i], 0);
